@@ -57,7 +57,7 @@ MIXED = [acc("ethos-u55-128"), acc("ethos-u65-256"), u55_mode("ethos-u55-64", "E
 TABLE = {
     "multi_input": (3, MIXED), "input_npu_and_cpu": (6, MIXED), "residual": (3, FAST), "lut_reuse": (4, LUT),
     "deep_slices": (3, TWO_CORE), "fc1_after_conv": (4, TWO_CORE), "nobias": (3, ROTATE), "casc_s2_valid": (4, CASCADE),
-    "two_npu_islands": (3, MIXED), "concat_slices": (3, ROTATE), "shared_weights": (2, ROTATE), "big_fm_u65": (3, FAST),
+    "two_npu_islands": (3, MIXED), "concat_slices": (3, ROTATE), "shared_weights": (2, ROTATE), "shared_weights_deep": (6, ROTATE), "big_fm_u65": (3, FAST),
     "avgpool_chain": (2, ROTATE), "minmax_lrelu": (2, ROTATE), "reshape_fork": (4, MIXED), "widen_ew": (3, ROTATE),
     "lut_mixed": (18, LUT), "shape_out": (42, MIXED), "transpose_perm": (24, ROTATE), "ew_fork": (20, MIXED),
     "fc1_two_core": (12, TWO_CORE), "near_scale": (15, ROTATE),
@@ -68,6 +68,8 @@ TABLE = {
     "shared_consts": (15, ROTATE),      # 12 axes of harness/netgen_shared.py (one per weight re-laying rewrite) + 3 drawn
 }
 DEFAULT = (3, ROTATE)
+# families built only by the sweep (not drawn by netgen.pattern_net at random, so the random profiles keep their networks)
+SWEEP_ONLY = ["shared_weights_deep"]
 
 
 def jobs(thorough=False):
@@ -75,7 +77,7 @@ def jobs(thorough=False):
     import netgen
 
     out = []
-    for p in netgen.PATTERNS:
+    for p in netgen.PATTERNS + SWEEP_ONLY:
         n, _ = TABLE.get(p, DEFAULT)
         for i in range(n * (4 if thorough else 1)):
             out.append((f"sweep:{p}", i))
